@@ -18,6 +18,8 @@ func main() {
 	switch os.Args[1] {
 	case "dev":
 		devCmd(os.Args[2:])
+	case "fieldwrites":
+		fieldWritesCmd(os.Args[2:])
 	case "check":
 		os.Exit(checkCmd(os.Args[2:]))
 	case "solve-batch":
@@ -39,6 +41,7 @@ func devCmd(argv []string) {
 	timeout := fs.Int("t", 10, "solver timeout (s)")
 	dump := fs.String("dump", "", "write the query of the obligation whose name contains this string to /tmp/govc_dump.smt2")
 	verbose := fs.Bool("v", false, "print notes")
+	aimf := fs.Bool("aim", false, "verify contracts that have an aimcheck clause in aim mode (C07)")
 	tagf := fs.String("tag", "", "only obligations whose tag has this prefix (cover/canary always)")
 	fs.Parse(argv)
 	t0 := time.Now()
@@ -51,6 +54,9 @@ func devCmd(argv []string) {
 		fmt.Fprintln(os.Stderr, "contracts:", err)
 		os.Exit(2)
 	}
+	if *aimf {
+		P.aimOn = func(string) bool { return true }
+	}
 	fmt.Printf("loaded in %.1fs; %d contracts\n", time.Since(t0).Seconds(), len(P.contracts))
 	var frs []*FuncResult
 	keys := []string{}
@@ -60,7 +66,10 @@ func devCmd(argv []string) {
 	sort.Strings(keys)
 	for _, k := range keys {
 		ct := P.contracts[k]
-		if ct.Trusted {
+		if ct.Trusted && !(*aimf && ct.AimCheck != nil) {
+			continue
+		}
+		if *aimf && ct.AimCheck == nil {
 			continue
 		}
 		if *only != "" && !strings.Contains(ct.Target, *only) {
